@@ -2983,7 +2983,7 @@ class Entity(MutableMapping[str, str]):
 
         # Update the by_class/target dicts with our new value
         if key_fold == 'classname':
-            _remove_copyset(self.map.by_class, orig_val or '', self)
+            _remove_copyset(self.map.by_class, (orig_val or '').casefold(), self)
             if self in self.map.entities:
                 self.map.by_class[str_val.casefold()].add(self)
             elif self is self.map.spawn:
@@ -2992,9 +2992,9 @@ class Entity(MutableMapping[str, str]):
                     raise ValueError('The worldspawn entity must remain worldspawn!')
                 self.map.by_class['worldspawn'].add(self)
         elif key_fold == 'targetname':
-            _remove_copyset(self.map.by_target, orig_val, self)
-            if self in self.map.entities:
-                self.map.by_target[str_val].add(self)
+            _remove_copyset(self.map.by_target, (orig_val or '').casefold() or None, self)
+            if self in self.map.entities or self is self.map.spawn:
+                self.map.by_target[str_val.casefold() or None].add(self)
         elif key_fold == 'nodeid':
             try:
                 node_id = int(orig_val)  # type: ignore  # Using as a cast
@@ -3021,8 +3021,9 @@ class Entity(MutableMapping[str, str]):
             return
         key = key.casefold()
         if key == 'targetname':
-            _remove_copyset(self.map.by_target, self._keys.get('targetname', None), self)
-            self.map.by_target[None].add(self)
+            _remove_copyset(self.map.by_target, self['targetname'].casefold() or None, self)
+            if self in self.map.entities or self is self.map.spawn:
+                self.map.by_target[None].add(self)
 
         if key == 'classname':
             raise KeyError('Classnames cannot be deleted!')
@@ -3075,8 +3076,10 @@ class Entity(MutableMapping[str, str]):
         key = key.casefold()
         for k in self._keys:
             if k.casefold() == key:
-                # TODO: B909 bug?
-                return self._keys.pop(k)
+                value = self._keys[k]
+                # Use __delitem__, so by_class/by_target and node IDs are updated.
+                del self[k]
+                return value
         return default
 
     def clear(self) -> None:
@@ -3084,10 +3087,11 @@ class Entity(MutableMapping[str, str]):
 
         The since classnames cannot be removed, it will be reset to ``info_null``.
         """
-        # Delete these so the .by_class/name values are cleared.
+        # Set/delete via the mapping methods so the .by_class/name values are kept in sync.
         self['classname'] = 'info_null'
-        del self['targetname']
-        self._keys.clear()
+        for key in list(self._keys):
+            if key.casefold() != 'classname':
+                del self[key]
         # Clear $fixup as well.
         self._fixup = None
     clear_keys = clear
